@@ -1529,17 +1529,20 @@ where
             return;
         }
 
-        let Some(maybe_setup) = call_expr.args.first() else {
+        if call_expr.args.is_empty() {
             return;
-        };
-
-        let props_types = self.extract_props_type(maybe_setup);
-        let emits_types = self.extract_emits_type(maybe_setup);
-        if let Some(prop_types) = props_types {
-            inject_define_component_option(call_expr, "props", prop_types);
         }
-        if let Some(emits_type) = emits_types {
-            inject_define_component_option(call_expr, "emits", Expr::Array(emits_type));
+
+        // an option the user wrote is kept: nothing to derive for it
+        if !has_define_component_option(call_expr, "props") {
+            if let Some(prop_types) = self.extract_props_type(&call_expr.args[0]) {
+                inject_define_component_option(call_expr, "props", prop_types);
+            }
+        }
+        if !has_define_component_option(call_expr, "emits") {
+            if let Some(emits_type) = self.extract_emits_type(&call_expr.args[0]) {
+                inject_define_component_option(call_expr, "emits", Expr::Array(emits_type));
+            }
         }
     }
 
@@ -1564,6 +1567,23 @@ where
             "name",
             Expr::Lit(Lit::Str(quote_str!(name.sym.clone()))),
         );
+    }
+}
+
+/// Whether the options object literal of a `defineComponent` call already has the option.
+fn has_define_component_option(call: &CallExpr, name: &'static str) -> bool {
+    match call.args.get(1) {
+        Some(ExprOrSpread { spread: None, expr }) => match &**expr {
+            Expr::Object(object) => object.props.iter().any(|prop| {
+                prop.as_prop()
+                    .and_then(|prop| prop.as_key_value())
+                    .and_then(|key_value| key_value.key.as_ident())
+                    .map(|ident| ident.sym == name)
+                    .unwrap_or_default()
+            }),
+            _ => false,
+        },
+        _ => false,
     }
 }
 
